@@ -3,6 +3,9 @@ import SpgProofs.Properties.C05
 #print axioms Spg.C05.shaped_atoms
 #print axioms Spg.C05.shaped_no_edge_sep
 #print axioms Spg.C05.capChoice_spec
+#print axioms Spg.C05.generate_structure
+#print axioms Spg.C05.generate_structure_run
+#print axioms Spg.C05.atoms_from_list
 #print axioms Spg.C05.string_concat
 #print axioms Spg.C05.atoms_separators_filter
 #print axioms Spg.C05.structure_counterexample
